@@ -1083,16 +1083,17 @@ func RaceWith[T any](sources ...Observable[T]) func(Observable[T]) Observable[T]
 				hasWinner := winner != -1
 				isWinner := hasWinner && winner == int32(j)
 
-				mu.Lock()
 				if !hasWinner || isWinner {
 					// No winner yet, or this source won during its own subscription:
 					// store the subscription, so the teardown releases it.
+					mu.Lock()
 					subscriptions[j] = sub
+					mu.Unlock()
 				} else {
-					// Another source won, unsubscribe this one
+					// Another source won, unsubscribe this one (out of the lock:
+					// Unsubscribe re-raises the panics of the teardowns it runs)
 					sub.Unsubscribe()
 				}
-				mu.Unlock()
 			}
 
 			return func() {
